@@ -135,6 +135,18 @@ def run_check(pid, tier, seed, replay=None):
                         cases += list(prop.generate(random.Random(seed * 104729 + k), tier))
             if cases:
                 recs, err = core.run_pipeline(harness, cases)
+                # a case whose *harness* gave up waiting (a scripted step that found no worker parked within its few seconds,
+                # a whole-run case cut off by the per-case timeout) says nothing yet: on a starved machine these waits run out
+                # although the code is fine. Such cases are run once more, alone, after everything else has finished; only
+                # what they show then is judged.
+                again = [i for i, r in enumerate(recs) if str(r.get("impl", "")).startswith(("script-timeout", "timeout"))]
+                if again and len(again) <= 40:
+                    time.sleep(2)
+                    for i in again:
+                        r2, _ = core.run_pipeline(harness, [recs[i]["case"]])
+                        if r2:
+                            r2[0]["retried_alone_after"] = recs[i]["impl"]
+                            recs[i] = r2[0]
                 fails, diffs = evaluate(prop, recs)
             # ---- 3b. the regenerated MiniGo programs, executed on the same cases (translator + semantics vs the real code)
             mirror = ["mg." + c for c in cases if c.startswith(MG_OPS)]
